@@ -51,12 +51,12 @@ rm -f $W/$PKGDIR/zz_demo_test.go
 res "existing tests (., ./mocks) with change: exit $R2"
 # 4. the checks
 for C in "$@"; do
-  rm -rf /verif/replays/$C
   (cd /verif && VERIF_REPO=$W timeout 1800 ./check $C > $OUT/check_$C.txt 2>&1); RC=$?
   V=$(grep -c '^VIOLATION' $OUT/check_$C.txt)
   res "check $C on changed copy: exit $RC, VIOLATION lines $V: $(grep '^VIOLATION' $OUT/check_$C.txt | head -2 | tr '\n' ' ')"
-  mkdir -p $OUT/replays_$C && cp /verif/replays/$C/*.json $OUT/replays_$C/ 2>/dev/null
-  rm -rf /verif/replays/$C
+  # keep exactly the replay files this run named on its VIOLATION lines (other runs write to replays/ concurrently)
+  rm -rf $OUT/replays_$C; mkdir -p $OUT/replays_$C
+  for f in $(grep '^VIOLATION' $OUT/check_$C.txt | sed 's/.*replay=\([^ ]*\).*/\1/'); do cp $f $OUT/replays_$C/ 2>/dev/null; done
   # regenerate Gen from /repo again
   (cd /verif && timeout 900 ./check $C > $OUT/check_${C}_clean.txt 2>&1); res "check $C on /repo afterwards: exit $?"
 done
